@@ -14,6 +14,7 @@
 From Coq Require Import Arith List Bool ZArith.
 From Verif Require Import C14_Assignors C14_Sticky C14_lists C14_range C14_rr C14_checkers
   C14_sticky C14_balance.
+From Verif Require Import C14_Run C14_Circle C14_circle.
 Import ListNotations.
 
 (* ============================================================ range *)
@@ -188,3 +189,31 @@ Example c14_sticky_hyps_satisfiable :
               [(((1, 4), 2), (1, 4))] false = Some r
             /\ cr_reverted r = false.
 Proof. eexists. split; [vm_compute; reflexivity | reflexivity]. Qed.
+
+
+(* ============================================================ sticky: passes that go round in a circle *)
+(* Since /repo 0d5eafa the balancing loop has a third exit: the assignment at the end of a pass was seen before
+   (before that commit such runs never ended).  These runs are judged by [ctl_run_circle] (model/C14_Circle.v): the
+   same enabled moves, neither proper exit at the end, the final ownership reached before.  They still return a valid
+   assignment ... *)
+Theorem c14_sticky_circle_valid : forall ppt ms prev st0 assigns reassigns obs r,
+  ids_nodup ms -> NoDup (map snd st0) ->
+  ctl_run_circle ppt ms prev st0 assigns reassigns obs = Some r ->
+  valid ppt ms (cr_final r) /\ valid ppt ms (cr_prebalance r) /\ valid ppt ms (cr_balanced r).
+Proof. exact ctl_run_circle_valid. Qed.
+Print Assumptions c14_sticky_circle_valid.
+
+(* ... and are no runs of [ctl_run], so c14_sticky_balanced_partial does not speak about them ... *)
+Theorem c14_sticky_circle_is_not_a_proper_exit : forall ppt ms prev st0 assigns reassigns obs r,
+  ctl_run_circle ppt ms prev st0 assigns reassigns obs = Some r ->
+  ctl_run ppt ms prev st0 assigns reassigns obs = None.
+Proof. exact ctl_run_circle_not_ctl_run. Qed.
+Print Assumptions c14_sticky_circle_is_not_a_proper_exit.
+
+(* ... rightly: the balance clause fails for them.  The op log the real assignor records on the first input of
+   corpus/C14/pingpong.json (an ordinary rebalance: C9 owns a previous generation, C0, C2 and C11 join, different
+   subscriptions) is accepted as a circle run, equals what assign() returned, is valid, and is NOT KIP-54 balanced
+   (known finding K5; the check replays this on the real code in every run). *)
+Example c14_sticky_circle_unbalanced :
+  run_sticky_circle [6; 0; 4; 1; 8; 2; 8; 3; 4; 4; 8; 5; 2; 4; 0; 3; 2; 0; 1; 2; 3; 0; 4; 5; 9; 3; 2; 0; 3; 11; 1; 2; 4; 0; 0; 0; 2; 0; 0; 9; 2; 11; 0; 0; 0; 2; 2; 0; 2; 2; 2; 3; 2; 4; 2; 5; 2; 6; 3; 0; 3; 1; 3; 2; 11; 0; 0; 11; 9; 0; 0; 9; 0; 2; 9; 2; 0; 9; 2; 2; 9; 2; 3; 9; 2; 4; 9; 2; 5; 9; 2; 6; 9; 3; 0; 9; 3; 1; 9; 3; 2; 0; 17; 1; 0; 0; 1; 1; 0; 1; 2; 0; 1; 3; 0; 1; 4; 0; 1; 5; 0; 1; 6; 0; 4; 0; 2; 4; 1; 2; 4; 2; 2; 4; 3; 2; 4; 4; 2; 4; 5; 2; 4; 6; 2; 5; 0; 2; 0; 1; 0; 2; 1; 11; 11; 0; 0; 0; 0; 0; 0; 2; 2; 0; 2; 2; 0; 11; 2; 0; 2; 2; 11; 2; 2; 2; 3; 11; 2; 3; 2; 4; 11; 2; 4; 0; 0; 9; 0; 0; 0; 1; 9; 0; 1; 0; 2; 0; 0; 1; 0; 1; 9; 0; 1; 0; 2; 0; 0; 1; 0; 28; 9; 2; 5; 9; 2; 6; 9; 3; 0; 9; 3; 1; 9; 3; 2; 9; 0; 0; 0; 1; 0; 0; 1; 1; 0; 1; 2; 0; 1; 3; 0; 1; 4; 0; 1; 5; 0; 1; 6; 0; 0; 1; 2; 4; 0; 2; 4; 1; 2; 4; 2; 2; 4; 3; 2; 4; 4; 2; 4; 5; 2; 4; 6; 2; 5; 0; 2; 0; 2; 11; 2; 1; 11; 2; 0; 11; 2; 2; 11; 2; 3; 11; 2; 4]%nat = [1; 1; 1; 0]%nat.
+Proof. vm_compute. reflexivity. Qed.
